@@ -102,7 +102,10 @@ Record case := mkCase {
   c_panic : option (nat * Z);          (* the closure with this identity panics on this argument *)
   c_macro : bool;                      (* the schedule is a macro-schedule (deterministic scheduler of the
                                           harness): each pick runs a thread up to its next yield point *)
-  c_iter : bool                        (* the source is a by-value iterator: ticket / handle protocol *)
+  c_iter : bool;                       (* the source is a by-value iterator: ticket / handle protocol *)
+  c_pre : nat                          (* elements taken from the concurrent iterator before into_par():
+                                          the computation sees the rest; reported positions are those of
+                                          the original source *)
 }.
 
 Definition task_of (t : terminal) : ParTask :=
@@ -424,10 +427,16 @@ Definition hits (pt : option (nat * Z)) (l : list (nat * Z)) : bool :=
   | Some (sid, a) => existsb (fun c => Nat.eqb (fst c) sid && Z.eqb (snd c) a) l
   end.
 
-Definition exec (c : case) : obs :=
+Definition shift_res (k : nat) (r : result) : result :=
+  match r with
+  | ROptIx (Some (i, v)) => ROptIx (Some ((k + i)%nat, v))
+  | _ => r
+  end.
+
+Definition exec0 (c : case) : obs :=
   let pid := length (c_ops c) in
   let t := c_term c in
-  let st0 := build (c_input c) (to_ops 0 (c_ops c)) in
+  let st0 := build (skipn (c_pre c) (c_input c)) (to_ops 0 (c_ops c)) in
   (* for_each(f) = map(f).count(): the map is applied inside the terminal call, so whatever it
      evaluates eagerly counts as run-time work *)
   let st := match t with
@@ -481,3 +490,8 @@ Definition exec (c : case) : obs :=
         mkObs res params (kind_of (ps_par st0)) (ps_clog st0) (ps_consumed st0) (late :: wlog)
               (length wl) (map csize wl) (map pulls wl) false (map seen wl) done
     end.
+
+Definition exec (c : case) : obs :=
+  let o := exec0 c in
+  mkObs (shift_res (c_pre c) (o_result o)) (o_params o) (o_kind o) (o_clog o) (o_consumed o) (o_rlog o)
+        (o_spawned o) (o_chunks o) (o_pulls o) (o_sequential o) (o_seen o) (o_complete o).
